@@ -80,18 +80,20 @@ func capturedErrVars(p *Prog, fn *Fn) map[types.Object]bool {
 func runC06(c *Ctx, r *Report) {
 	p := c.P
 	for k, v := range map[string]string{
-		"R-C06.1": "validate-all-then-apply: state changes of Join dominated by the nil edge of the aggregated error tested after Wait",
-		"R-C06.2": "infallible apply phase: no error return after the first state change; success returns have stored heads and clock",
-		"R-C06.3": "everything inserted was checked: same collection validated and applied; CanAppend and Verify called and their errors recorded on every accepting path",
-		"R-C06.4": "denied append stores nothing: Entries/Next/heads stores dominated by nil edges of creation and CanAppend",
-		"R-C06.5": "sign and verify agree on the transformation chain, on field-setting order and on the key/signature used",
-		"R-C06.6": "Verify is total for every codec: the entry handed to ToHashable is assigned on every path",
-		"R-C06.7": "difference admits an entry only on the equal-log-id edge",
-		"control": "engine positive/negative controls analysed on every run",
+		"R-C06.1":  "validate-all-then-apply: state changes of Join dominated by the nil edge of the aggregated error tested after Wait",
+		"R-C06.2":  "infallible apply phase: no error return after the first state change; success returns have stored heads and clock",
+		"R-C06.3":  "everything inserted was checked: same collection validated and applied; CanAppend and Verify called and their errors recorded on every accepting path",
+		"R-C06.4":  "denied append stores nothing: Entries/Next/heads stores dominated by nil edges of creation and CanAppend",
+		"R-C06.5":  "sign and verify agree on the transformation chain, on field-setting order and on the key/signature used",
+		"R-C06.6":  "Verify is total for every codec: the entry handed to ToHashable is assigned on every path",
+		"R-C06.7":  "difference admits an entry only on the equal-log-id edge",
+		"R-C06.10": "a log reopened through any loader keeps the access controller it was configured with",
+		"control":  "engine positive/negative controls analysed on every run",
 	} {
 		r.Doc(k, v)
 	}
 	nilControls(c, r, "control")
+	optionForwarding(c, r, "R-C06.10", constructorLogSpecs(), "AccessController")
 	join := p.FuncI("", "IPFSLog", "Join")
 	app := p.FuncI("", "IPFSLog", "Append")
 	all := map[*types.Var]bool{}
@@ -135,17 +137,7 @@ func runC06(c *Ctx, r *Report) {
 		}
 	}
 	jf.Run()
-	nsc := 0
-	jf.Visit(func(_ *cfgBlk, n ast.Node, before Facts) {
-		for _, sc := range logStateChanges(p, join, n, all) {
-			nsc++
-			r.Check(before["validated"], "R-C06.1", r.Key("R-C06.1", join, sc.What, ""), sc.Pos,
-				"state change happens only after all candidates were validated (error tested nil after Wait)",
-				fmt.Sprintf("%s in Join is not dominated by the nil edge of the aggregated validation error tested after wg.Wait(): an invalid entry elsewhere in the batch leaves this change applied (merge is not all-or-nothing)", sc.What),
-				before.List()...)
-		}
-	})
-	r.Floor("R-C06.1", "state changes in Join", nsc, 3)
+	joinAllOrNothing(c, r, "R-C06.1", jf, all)
 	// may-flow for error returns after apply started
 	mf := &Flow{P: p, Fn: join, May: true, Entry: Facts{}}
 	mf.Node = func(n ast.Node, f Facts) {
@@ -218,16 +210,7 @@ func runC06(c *Ctx, r *Report) {
 		}
 	}
 	af.Run()
-	nst := 0
-	af.Visit(func(_ *cfgBlk, n ast.Node, before Facts) {
-		for _, sc := range logStateChanges(p, app, n, entriesHeads) {
-			nst++
-			r.Check(before["created"] && before["allowed"], "R-C06.4", r.Key("R-C06.4", app, sc.What, ""), sc.Pos,
-				"the entry enters the log only after it was created and the access controller allowed it",
-				fmt.Sprintf("%s in Append is not dominated by the success of entry creation (%v) and of CanAppend (%v): a denied append leaves the entry or head in the log", sc.What, before["created"], before["allowed"]))
-		}
-	})
-	r.Floor("R-C06.4", "Entries/Next/heads changes in Append", nst, 2)
+	appendDeniedStoresNothing(c, r, "R-C06.4", af, entriesHeads)
 	// no error return after the first such change in Append
 	am := &Flow{P: p, Fn: app, May: true, Entry: Facts{}}
 	am.Node = func(n ast.Node, f Facts) {
@@ -1081,4 +1064,161 @@ func nilInit(p *Prog, fn *Fn, as *ast.AssignStmt, lhs ast.Expr) bool {
 		}
 	}
 	return false
+}
+
+// joinValidationFlow builds the must-flow of Join with the fact "validated" (aggregated error tested nil after Wait).
+func joinValidationFlow(c *Ctx) (*Flow, map[*types.Var]bool) {
+	p := c.P
+	join := p.FuncI("", "IPFSLog", "Join")
+	all := map[*types.Var]bool{}
+	for _, f := range []string{"Entries", "Next", "heads", "Clock"} {
+		all[p.Field("", "IPFSLog", f)] = true
+	}
+	errVars := capturedErrVars(p, join)
+	jf := &Flow{P: p, Fn: join, Entry: Facts{}}
+	jf.Node = func(n ast.Node, f Facts) {
+		walkNoLit(n, func(nd ast.Node) bool {
+			if call, ok := nd.(*ast.CallExpr); ok {
+				if cf := p.Callee(join, call); cf != nil && isFunc(cf, "sync", "WaitGroup", "Wait") {
+					f["waited"] = true
+				}
+			}
+			return true
+		})
+		for _, id := range assignedIdents(n) {
+			if errVars[p.ObjOf(join, id)] {
+				if _, isSpec := n.(*ast.ValueSpec); !isSpec {
+					delete(f, "validated")
+				}
+			}
+		}
+	}
+	jf.Edge = func(cond ast.Expr, taken bool, f Facts) {
+		for _, a := range splitCond(cond, taken) {
+			if x, isNil, ok := nilTest(a); ok && isNil {
+				if id, ok := ast.Unparen(x).(*ast.Ident); ok && errVars[p.ObjOf(join, id)] && f["waited"] {
+					f["validated"] = true
+				}
+			}
+		}
+	}
+	jf.Run()
+	return jf, all
+}
+
+// joinAllOrNothing: every change of the log's indexes, heads and clock in Join — in its body or in any function
+// literal it contains — happens only after the whole batch was validated. Shared by the properties for which a
+// refused merge that leaves partial state is fatal (C06 all-or-nothing, C02 head exactness, C03 completeness,
+// C05 append-only views).
+func joinAllOrNothing(c *Ctx, r *Report, rule string, jf *Flow, all map[*types.Var]bool) {
+	p := c.P
+	join := jf.Fn
+	nsc := 0
+	jf.Visit(func(_ *cfgBlk, n ast.Node, before Facts) {
+		for _, sc := range logStateChanges(p, join, n, all) {
+			nsc++
+			r.Check(before["validated"], rule, r.Key(rule, join, sc.What, ""), sc.Pos,
+				"state change happens only after all candidates were validated (error tested nil after Wait)",
+				fmt.Sprintf("%s in Join is not dominated by the nil edge of the aggregated validation error tested after wg.Wait(): an invalid entry elsewhere in the batch leaves this change applied (merge is not all-or-nothing)", sc.What),
+				before.List()...)
+		}
+		// literals started or defined here that change the log themselves
+		walkNoLit(n, func(nd ast.Node) bool {
+			lit, ok := nd.(*ast.FuncLit)
+			if !ok {
+				return true
+			}
+			lf := p.ByLit[lit]
+			if lf == nil {
+				return false
+			}
+			for _, sub := range AllFnsUnder(lf) {
+				walkNoLit(sub.Body, func(m ast.Node) bool {
+					st, ok := m.(ast.Stmt)
+					switch m.(type) {
+					case *ast.ExprStmt, *ast.AssignStmt, *ast.IncDecStmt:
+					default:
+						ok = false
+					}
+					if ok {
+						for _, sc := range logStateChanges(p, sub, st, all) {
+							nsc++
+							r.Check(before["validated"], rule, r.Key(rule, join, "closure-"+sc.What, ""), sc.Pos,
+								"closures that change the log are only created after validation",
+								fmt.Sprintf("%s happens inside a function literal of Join that is created before the batch was validated (a validation worker or an early helper): a refused merge has already changed the log", sc.What))
+						}
+					}
+					return true
+				})
+			}
+			return false
+		})
+	})
+	r.Floor(rule, "state changes in Join", nsc, 3)
+}
+
+// appendDeniedStoresNothing: Entries/Next/heads change in Append only after the entry was created and allowed.
+func appendDeniedStoresNothing(c *Ctx, r *Report, rule string, af *Flow, fields map[*types.Var]bool) {
+	p := c.P
+	app := af.Fn
+	nst := 0
+	af.Visit(func(_ *cfgBlk, n ast.Node, before Facts) {
+		for _, sc := range logStateChanges(p, app, n, fields) {
+			nst++
+			r.Check(before["created"] && before["allowed"], rule, r.Key(rule, app, sc.What, ""), sc.Pos,
+				"the entry enters the log only after it was created and the access controller allowed it",
+				fmt.Sprintf("%s in Append is not dominated by the success of entry creation (%v) and of CanAppend (%v): a denied append leaves the entry, a predecessor link or a head in the log", sc.What, before["created"], before["allowed"]))
+		}
+	})
+	r.Floor(rule, "Entries/Next/heads changes in Append", nst, 2)
+}
+
+// appendAdmissionFlow builds the must-flow of Append with the facts "created" and "allowed".
+func appendAdmissionFlow(c *Ctx) (*Flow, map[*types.Var]bool) {
+	p := c.P
+	app := p.FuncI("", "IPFSLog", "Append")
+	createErr, canErr := map[types.Object]bool{}, map[types.Object]bool{}
+	walkNoLit(app.Body, func(n ast.Node) bool {
+		as, ok := n.(*ast.AssignStmt)
+		if !ok || len(as.Rhs) != 1 {
+			return true
+		}
+		if call, ok := ast.Unparen(as.Rhs[0]).(*ast.CallExpr); ok {
+			cf := p.Callee(app, call)
+			if id, ok := as.Lhs[len(as.Lhs)-1].(*ast.Ident); ok && cf != nil {
+				switch cf.Name() {
+				case "CreateEntryWithIO", "CreateEntry":
+					createErr[p.ObjOf(app, id)] = true
+				case "CanAppend":
+					canErr[p.ObjOf(app, id)] = true
+				}
+			}
+		}
+		return true
+	})
+	af := &Flow{P: p, Fn: app, Entry: Facts{}}
+	af.Edge = func(cond ast.Expr, taken bool, f Facts) {
+		for _, a := range splitCond(cond, taken) {
+			if x, isNil, ok := nilTest(a); ok && isNil {
+				if id, ok := ast.Unparen(x).(*ast.Ident); ok {
+					if createErr[p.ObjOf(app, id)] {
+						f["created"] = true
+					}
+					if canErr[p.ObjOf(app, id)] {
+						f["allowed"] = true
+					}
+				}
+			}
+		}
+	}
+	af.Run()
+	return af, map[*types.Var]bool{p.Field("", "IPFSLog", "Entries"): true, p.Field("", "IPFSLog", "Next"): true, p.Field("", "IPFSLog", "heads"): true}
+}
+
+// refusedOperationsLeaveNoTrace registers the two shared atomicity obligations under a property's own rule id.
+func refusedOperationsLeaveNoTrace(c *Ctx, r *Report, rule string) {
+	jf, all := joinValidationFlow(c)
+	joinAllOrNothing(c, r, rule, jf, all)
+	af, fields := appendAdmissionFlow(c)
+	appendDeniedStoresNothing(c, r, rule, af, fields)
 }
